@@ -127,7 +127,7 @@ theorem C01_order_independent {sites sites' : List Site} (r : Req) (hp : sites.P
     (hn : sites.all (fun s => !s.fallback) = true) : chosenKey sites r = chosenKey sites' r :=
   chosenKey_perm r hp (fallbacks_perm_of_none hp hn)
 
-/-- What `_partial` excludes is real: two designated fallback sites with different hosts are
+/-- The fallback-order clause is observable: two designated fallback sites with different hosts are
 tried in declaration order, so swapping them changes who serves an unmatched host.
 (`a`/`b` fallback sites, request host `z`.) -/
 theorem C01_order_fails_witness :
@@ -159,21 +159,25 @@ theorem C01_case_port_insensitive_model (sites : List Site) (n n' port path : By
   rw [C01_refines_spec _ _ hd, C01_refines_spec _ _ hd']
   exact (C01_case_port_insensitive sites n n' port path pm hn hb hn' hb' hport hcase).1
 
-/-- The judged predicate: whenever reversing the declaration order leaves the fallback list
-unchanged (in particular: at most one designated fallback host, or none), the model's answer
-gets the verdict "ok" for every site list and request.  `_partial`: the excluded class is
-exactly the one of `C01_order_fails_witness`. -/
-theorem C01_model_verdict_ok_partial (sites : List Site) (r : Req)
-    (hfb : fallbacks sites = fallbacks sites.reverse) :
+/-- Declaration order, as the specification states it: given the order in which the designated
+fallback hosts are tried, the choice depends on the SET of site addresses only — any permutation
+of the sites chooses the same address for every request.  (The fallback order itself is the clause
+"among designated fallback sites the first declared wins"; `C01_order_fails_witness` shows it is
+observable, so it has to be a clause.) -/
+theorem C01_order_independent_given_fallback_order {sites sites' : List Site} (fbs : List Bytes) (r : Req)
+    (hp : sites.Perm sites') : chosenKeyWith fbs sites r = chosenKeyWith fbs sites' r :=
+  chosenKeyWith_perm fbs r hp
+
+/-- The judged predicate, total: for every site list (any fallback flags, any order) and every
+request the model's answer gets the verdict "ok". -/
+theorem C01_model_verdict_ok (sites : List Site) (r : Req) :
     verdict sites r (route sites r) = "ok" := by
   unfold verdict
   by_cases hd : inDomain sites r = true
-  · have hord : chosenKey sites r = chosenKey sites.reverse r :=
-      chosenKey_perm r (List.reverse_perm sites).symm hfb
-    simp only [hd, Bool.not_true, Bool.false_eq_true, if_false, C01_refines_spec sites r hd]
+  · simp only [hd, Bool.not_true, Bool.false_eq_true, if_false, C01_refines_spec sites r hd]
     cases specRoute sites r with
-    | site i p => simp [hord]
-    | notFound st => simp [hord]
+    | site i p => simp
+    | notFound st => simp
   · simp [hd]
 
 /-! ### Through the real loader (stream `c01.stack`; loader model = `Casket.AutoHTTPS.inspect` of C15) -/
@@ -221,18 +225,8 @@ theorem C01_stack_model_verdict_ok_partial (addrs : List Casket.AutoHTTPS.Bytes)
           simp only []
           rw [← hg]
           have hd := hdistinct as hi
-          have hnofb : fallbacks ((Casket.VHostStack.groupOf as port 0).map (fun p => Casket.VHostStack.siteOfAddr p.1))
-              = fallbacks ((Casket.VHostStack.groupOf as port 0).map (fun p => Casket.VHostStack.siteOfAddr p.1)).reverse := by
-            have : ∀ l : List Site, (∀ s ∈ l, s.fallback = false) → fallbacks l = catchAll := by
-              intro l hl
-              unfold fallbacks
-              have : l.filter (·.fallback) = [] := by
-                rw [List.filter_eq_nil_iff]; intro s hs; simp [hl s hs]
-              simp [this]
-            rw [this _ (by intro s hs; simp only [List.mem_map] at hs; obtain ⟨p, _, rfl⟩ := hs; rfl),
-              this _ (by intro s hs; simp only [List.mem_reverse, List.mem_map] at hs; obtain ⟨p, _, rfl⟩ := hs; rfl)]
-          have hv := C01_model_verdict_ok_partial
-            ((Casket.VHostStack.groupOf as port 0).map (fun p => Casket.VHostStack.siteOfAddr p.1)) r hnofb
+          have hv := C01_model_verdict_ok
+            ((Casket.VHostStack.groupOf as port 0).map (fun p => Casket.VHostStack.siteOfAddr p.1)) r
           cases hr : route ((Casket.VHostStack.groupOf as port 0).map (fun p => Casket.VHostStack.siteOfAddr p.1)) r with
           | notFound st =>
             simp only [hd, Bool.false_eq_true, if_false]
@@ -281,7 +275,5 @@ example : route [⟨[97, 46, 99, 111, 109, 47, 102], false, []⟩, ⟨[], false,
 example : route [⟨[91, 58, 58, 93, 58, 56, 48, 56, 48], false, []⟩] ⟨[122], [47], 1⟩ = .site 0 [47] := by decide
 example : route [⟨[91, 58, 58, 49, 93], false, []⟩] ⟨[91, 58, 58, 49, 93, 58, 50, 48, 49, 53], [47], 1⟩ = .site 0 [47] := by decide
 
-/-- the hypothesis of `C01_model_verdict_ok_partial` holds for a list with one fallback site -/
-example : fallbacks [⟨[97], true, [97]⟩, ⟨[98], false, [98]⟩] = fallbacks [⟨[97], true, [97]⟩, ⟨[98], false, [98]⟩].reverse := by decide
 
 end Casket.Props.C01
